@@ -1007,7 +1007,8 @@ def _oracle_space(res, c, rng, margins):
         if kind in ("BC0", "RBC0"):
             mode = "normal" if kind == "BC0" else "tangential"
             w, n, sk, wit = _jumps(sp, bE, bV, gi._bary_edges, mode, rng, ntrial=1)
-            margins[kind + "_jump"] = max(margins.get(kind + "_jump", 0.0), w)
+            mk = kind + ("_jump" if w <= 1e-11 else "_jump_failing")
+            margins[mk] = max(margins.get(mk, 0.0), w)
             res.count("edges_tested_" + kind, n)
             if w > 1e-11:
                 interface = any(len(l) >= 2 and len({bool(sup0[e]) for e, _ in l}) == 2 for l in gi.edge_elems.values())
